@@ -21,6 +21,17 @@ type c07Dgram struct {
 	Hex      string   `json:"hex"`
 }
 
+// hostileFlow: in hostile messages half of the generated flow descriptions are well-formed IEs whose text is not a
+// valid description (cut after a token, tokens missing / doubled / out of range, arbitrary bytes)
+var hostileFlow = false
+
+func genFlow(r *vh.Rng) string {
+	if hostileFlow && r.Bool() {
+		return vh.GenJunkFlow(r)
+	}
+	return vh.GenFlow(r)
+}
+
 func richRules(r *vh.Rng) []*vh.IE {
 	bid := uint32(7)
 	var ies []*vh.IE
@@ -35,7 +46,7 @@ func richRules(r *vh.Rng) []*vh.IE {
 		vh.Grp(vh.TCreateBAR, vh.BARID(1), vh.DDNDelay(4), vh.SuggBufCnt(8)),
 		vh.Grp(vh.TCreatePDR, vh.PDRID(1), vh.Precedence(255),
 			vh.Grp(vh.TPDI, vh.SrcIntf(0), vh.FTEIDv4(0x11, net.IPv4(10, 1, 1, 1)), vh.NetInst("internet"), vh.UEIPv4(net.IPv4(10, 60, 0, 1), false),
-				vh.SDFFilter("permit out ip from 10.0.0.0/8 80,443-445 to assigned", &bid), vh.SDFFilter(vh.GenFlow(r), nil)),
+				vh.SDFFilter("permit out ip from 10.0.0.0/8 80,443-445 to assigned", &bid), vh.SDFFilter(genFlow(r), nil)),
 			vh.OHR(0), vh.FARID(1), vh.QERID(1), vh.URRID(1), vh.URRID(2)),
 		vh.Grp(vh.TCreatePDR, vh.PDRID(2), vh.Precedence(10),
 			vh.Grp(vh.TPDI, vh.SrcIntf(1), vh.UEIPv4(net.IPv4(10, 60, 0, 1), true), vh.SDFFilter("permit out 17 from any to assigned 5000-6000", nil)),
@@ -58,7 +69,7 @@ func modIEs(r *vh.Rng) []*vh.IE {
 		vh.Grp(vh.TUpdateQER, vh.QERID(1), vh.Gate(5), vh.MBR(1, 2), vh.QFI(5)),
 		vh.Grp(vh.TUpdateURR, vh.URRID(1), vh.MeasMethod(3), vh.RepTrig(2, 3), vh.MeasPeriod(3600), vh.VolQuota(7, 1, 2, 3)),
 		vh.Grp(vh.TUpdateBAR, vh.BARID(1), vh.DDNDelay(1)),
-		vh.Grp(vh.TUpdatePDR, vh.PDRID(1), vh.Precedence(1), vh.Grp(vh.TPDI, vh.SrcIntf(0), vh.SDFFilter(vh.GenFlow(r), &bid)), vh.FARID(3), vh.URRID(3)),
+		vh.Grp(vh.TUpdatePDR, vh.PDRID(1), vh.Precedence(1), vh.Grp(vh.TPDI, vh.SrcIntf(0), vh.SDFFilter(genFlow(r), &bid)), vh.FARID(3), vh.URRID(3)),
 		vh.Grp(vh.TQueryURR, vh.URRID(1)),
 	}
 }
@@ -272,6 +283,8 @@ func runC07(res *vh.Result) {
 			return len(b) > 1 && b[1] == vh.MAssocReq && strings.Contains(string(b), string(C.IP.To4()))
 		}
 		// ---- hostile sequence ----
+		hostileFlow = true
+		defer func() { hostileFlow = false }()
 		target := aSess[len(aSess)-1]
 		templates := func() (string, []byte) {
 			zero := uint64(0)
